@@ -215,6 +215,11 @@ def run(tier='quick'):
             else:
                 chk.ok(S2, inst, ws, detail={'changed': _S(changed)[:8]})
 
+    # sibling readers (single-field getter path vs snapshot path) filter rows identically
+    funcs = c01.v1_storage_functions(prog)
+    maps = [m for m in rowrules.expand_sites(prog, cg, eff, funcs)
+            if (m.stmt.table or '').lower() in c01.TRACK_TABLES]
+    c01._filter_agreement(chk, G2, maps)
     _row_scope(prog, cg, eff, chk, S3)
     _facade(prog, cg, chk, F1)
     return chk.finish('value-flow interpretation of the 60 track_impl virtuals of both implementations per '
